@@ -78,6 +78,8 @@ static void my_error_exit(j_common_ptr cinfo)
   my_error_ptr myerr = (my_error_ptr)cinfo->err;
 
   (*cinfo->err->output_message) (cinfo);
+  /* A fatal error supersedes any warning issued earlier in the same call. */
+  myerr->warning = FALSE;
   longjmp(myerr->setjmp_buffer, 1);
 }
 
